@@ -35,7 +35,7 @@ def make_case(seed, tier):
         kind = 'coherent'
     else:
         knobs = gen.Knobs(items=r.choice([3, 5]), members=r.choice([4, 8]), ns_depth=r.choice([1, 2, deep]), inst_len=3)
-        mod = gen.WildGen(seed, knobs, typedefs=True, typedef_same_ns=True, param_use=0.3, this_use=0.05,
+        mod = gen.WildGen(seed, knobs, multiline_defaults=False, typedefs=True, typedef_same_ns=True, param_use=0.3, this_use=0.05,
                           class_template_p=0.3, operators=False, dunders=False, includes=True, special_names=0.05,
                           class_enums=True).module()
         kind = 'wild'
